@@ -179,7 +179,7 @@ func (e *Env) Copy() *Env {
 	if e.values != nil {
 		copy.values = make(map[string]reflect.Value, len(e.values))
 		for name, value := range e.values {
-			if value.CanAddr() {
+			if value.CanAddr() && value.CanInterface() {
 				// an addressable value is a cell: the copy gets its own, so that a store through a
 				// pointer to it (Addr, &name in a script) on one side does not show on the other
 				own := reflect.New(value.Type()).Elem()
